@@ -26,9 +26,11 @@ def run(ck):
     if quick:
         incr.crash_check(ck, d, n_scenarios=6, offsets_mode='sample')
     else:
-        incr.crash_check(ck, d, n_scenarios=50, offsets_mode='all')
+        incr.crash_check(ck, d, n_scenarios=16, offsets_mode='all')       # every byte offset of 16 records
+        incr.crash_check(ck, d, n_scenarios=34, offsets_mode='sample')    # ~20 offsets of 34 more
     incr.blackbox_c05(ck, d, thorough=not quick)
     incr.flush(ck)
+    vf.sh(['rm', '-rf', d])
 
 
 def replay(ck, path):
